@@ -256,7 +256,9 @@ def bounded(args):
             entry["tried"] += 1
             try:
                 if c.gen is not None:
-                    argv = c.gen(rng)
+                    # a generator may take the case index as well (stratified scenarios)
+                    g_ = getattr(c.gen, "__func__", c.gen)
+                    argv = c.gen(rng, entry["accepted"]) if g_.__code__.co_argcount >= 2 else c.gen(rng)
                 else:
                     argv = {k: vlib.generate(sh, rng) for k, sh in c.args.items()}
                     argv.update({k: vlib.generate(sh, rng) for k, sh in c.free.items()})
